@@ -293,7 +293,7 @@ def chp_physics(prop, tier, seed):
         tar = rng.choice([0, 0, 1, 2])
         tao = 0 if tar else rng.choice([1, 2])
         cases.append(dict(T=T, seed=rng.randint(0, 9999), ramp=rng.choice([None, 1.5, 2.]), mr=rng.choice([0, 2, 3]), md=rng.choice([0, 2]), tar=tar, tao=tao,
-                          last=(rng.choice([1., 2., 3.]) if tar else 0.), order=rng.random() < .5, heat=rng.choice([.5, 1.]), conv_series=rng.random() < .3))
+                          last=(rng.choice([1., 2., 3.]) if tar else 0.), order=rng.random() < .5, heat=rng.choice([.5, 1.]), conv_series=rng.random() < .3, fuel_only=rng.random() < .3))
     return dict(bounded=run_cases(sc.check_chp_physics, cases, 'optimised CHP (power, heat, fuel nodes; ramp, runtime/downtime, initial state, last dispatch, start fuel, running consumption, heat share) in a 5-asset portfolio with positive/negative power prices: every clause of the statement evaluated on the MIP solution and on the reported fuel dispatch',
                                   'hourly grids of 4-7 steps', 40 if tier == 'quick' else 300))
 
@@ -364,3 +364,12 @@ def outside_inert(prop, tier, seed):
              for w in ('after', 'before')]
     return dict(bounded=run_cases(sc.check_outside_inert, cases, 'an asset of each of ten kinds placed entirely before / after the horizon in a 5-asset portfolio: same optimal value as without it, no reported dispatch, output extractable',
                                   '6 hourly steps', 40 if tier == 'quick' else 120))
+
+
+@provider('C07')
+def wf_kinds(prop, tier, seed):
+    rng = random.Random(seed + 83)
+    cases = [dict(T=rng.randint(3, 6), seed=rng.randint(0, 99999), trigger=t, plant=p) for t in ('start_fuel', 'consumption', 'start_costs', 'downtime') for p in (True, False)
+             for _ in range(_n(tier, 2, 8))]
+    return dict(bounded=run_cases(sc.check_wf_kinds, cases, 'random portfolios (2-5 assets of 10 kinds) plus a plant / CHP whose binaries are triggered by exactly one option (start fuel, running consumption, start costs, minimum downtime): well-formedness of every stand-alone problem and of the assembled one; each asset’s costs and bounds at its own variables',
+                                  'grids of 3-6 steps', 40 if tier == 'quick' else 200))
